@@ -153,6 +153,9 @@ def _parse_out(res: TLCResult) -> None:
     elif re.search(r"^Error: ", out, re.M):
         # any other TLC error = machinery (parse error, evaluation error ...)
         first = re.search(r"^Error: .*(?:\n.*){0,6}", out, re.M).group(0)
+        if "Parsing or semantic analysis failed" in first:
+            detail = [ln for ln in out.splitlines() if not ln.startswith(("Parsing file", "Semantic processing", "Linting"))]
+            first += "\n" + "\n".join(detail[-40:])
         raise TLCMachineryError(first)
     elif res.rc not in (0,):
         tail = out[-2000:]
